@@ -100,9 +100,14 @@ CLAIMS = {
     'C17': dict(level='proof',
         text='PROVED for all grids / kept counts / times: SpikeSelector.__init__ keeps whole grid intervals at SOME regular stride starting with the first chunk, never more than requested, every strided chunk kept '
              '(loop invariant, existential stride with witness); _times_in_chunks flags a time exactly when it lies in some kept half-open interval (parity argument over the assumed searchsorted contract, incl. '
-             'duplicated inner bounds). BOUNDED only: SpikeSelector.__call__ (per-cluster counts, subset, RNG draw) and its use in save_spikes_subset_waveforms, against a set-comprehension oracle over exhaustive small inputs and 4-20 RNG seeds.',
-        note='Assumed: np.searchsorted(side=right), np.array(list); smul(q,s)=q*s by its defining recurrence; np.random.choice/intersect1d/unique only exercised in the bounded part.',
-        assumptions=['A-LIB np.searchsorted(side=right) contract', 'A-LIB np.array(list of ints)']),
+             'duplicated inner bounds); SpikeSelector.__call__ for any requested (distinct) clusters, any callback, with/without chunk restriction, spike subset and count: the result is strictly increasing and every '
+             'selected spike is listed by the callback for a requested cluster, lies in a kept chunk when chunk restriction is requested and belongs to the subset when one is given (loop invariant over the selection '
+             'dict, then the proved contract of _flatten_per_cluster). BOUNDED only: the count clause (all eligible spikes when at most n, exactly n otherwise; the RNG draw), unknown clusters, '
+             'save_spikes_subset_waveforms, against a set-comprehension oracle over exhaustive small inputs and 4-20 RNG seeds.',
+        note='Assumed: np.searchsorted(side=right); smul(q,s)=q*s by its defining recurrence; np.random.choice(a, n, replace=False) returns n elements of a; the callback get_spikes_per_cluster(c) returns valid spike '
+             'indices it lists for c (spike_of, uninterpreted); 1-D NumPy theory (gather, mask selection, intersect1d, unique, concatenate); association-list model of the selection dict (keys = requested clusters, distinct).',
+        assumptions=['A-LIB np.searchsorted(side=right) contract', 'A-LIB np.random.choice without replacement', 'A-CB callback get_spikes_per_cluster', 'A-LIB 1-D NumPy array theory (pyvc/npth.py)', 'A-DICT association-list model of int-keyed dicts']),
+
     'C19': dict(level='proof',
         text='PROVED for all values/histories via per-operation contracts over ghost state: ProgressReporter (_set_value, increment, value/value_max setters, reset, set_complete, is_complete, __init__) keeps the invariant '
              'flag == "completion announced since the value was last set below the maximum or the maximum was last raised" and announces completion exactly when a value update reaches the maximum un-announced, with progress '
